@@ -963,6 +963,7 @@ ScalarType.unary_operators.unm = function(ltype, lattr)
   if lval then -- is compile time value
     reval = -lval
     retype = ltype:promote_type_for_value(reval)
+    reval = retype:wrap_value(reval) -- -(int64 min) has no wider type to go to
   end
   return retype, reval
 end
